@@ -325,6 +325,9 @@ def run_c13(run_, rng, tier, exe):
     for _ in range(150 if q else 2500):
         o = dict(rng.choice([{"f": 1}, {"f": 1, "rf": "context"}, {"f": 1, "rf": "unified"}, {"f": 1, "R": 1}, {"f": 1, "R": 1, "rf": "context"}]))
         s = scen.gen_scenario(rng, nsec=1, kinds=["change"], fmts=["unified", "context", "normal"], drift=0.9, opts=o)
+        if rng.random() < 0.15:
+            sec_ = scen.section(rng, "gr", kind="change", fmt="git", nonl=False)
+            s = scen.base_scenario(rng, [sec_], opts=o, drift=0.9)
         if s["secs"][0]["fmt"] == "normal":
             s["opts"]["file"] = s["secs"][0]["path"]
         # patch files with CRLF line endings (mailed or checked out on Windows), target in CRLF or LF form
@@ -399,6 +402,12 @@ def run_c13(run_, rng, tier, exe):
         rep = dict(scenario=describe(s), reject=r["tree"][sec["path"] + ".rej"][2].decode("latin-1"), parsed=pi[j][:800], stdout=out[-600:])
         if pi[j] != pm[j]:
             mism.append((i, "L1 PARSE of a reject file", dict(case=parse_cases[j], impl=pi[j], model=pm[j])))
+        rtxt = r["tree"][sec["path"] + ".rej"][2]
+        want_fmt = s["opts"].get("rf") or ("unified" if sec["fmt"] == "unified" else "context")    # (a git section counts as "otherwise")
+        is_ctx = rtxt.startswith(b"*** ")
+        if (want_fmt == "context") != is_ctx:
+            bad.append((i, "the reject file is written in %s form, %s form was %s" % ("context" if is_ctx else "unified", want_fmt,
+                        "asked for with --reject-format" if s["opts"].get("rf") else "due (unified for unified input, context otherwise)"), rep)); continue
         if got is None:
             bad.append((i, "this tool cannot parse its own reject file", rep)); continue
         if [(g["os"], g["oc"], g["ns"], g["nc"]) + sides(g) for g in got] != [(e["os"], e["oc"], e["ns"], e["nc"]) + sides(e) for e in exp]:
@@ -525,6 +534,21 @@ def run_c14(run_, rng, tier, exe):
         if got is None or got[2] != s["want"]:
             return "%s diff under --newline-output=%s: bytes written are not what the mode promises" % (s["fmt"], s["mode"])
         return None
+    for _ in range(100 if q else 1500):
+        a = [(gen.rand_text(rng, True) + str(i_), rng.choice("LC")) for i_ in range(rng.randint(1, 6))]
+        ops = []
+        for i_, l in enumerate(a):
+            if i_ == 0 or rng.random() < 0.4:
+                ops.append(("-", l)); ops.append(("+", (l[0] if rng.random() < 0.6 else l[0] + "x", "L" if l[1] == "C" else "C")))
+            else:
+                ops.append((" ", l))
+        a2 = [l for o_, l in ops if o_ != "+"]; b2_ = [l for o_, l in ops if o_ != "-"]
+        fmt = rng.choice(["context", "context", "unified"])
+        hs = gen.hunks_from_ops(ops, rng.choice([0, 0, 1, 3]))
+        text = emit.emit_context("a/f", "b/f", hs) if fmt == "context" else emit.emit_unified("a/f", "b/f", hs)
+        mode = rng.choice(["keep", "keep", "keep", "lf", "crlf"])
+        scns.append(dict(tree={"f": ("R", 0o644, emit.file_bytes(a2)), "p.diff": ("R", 0o644, text)}, opts={"p": 1, "i": "p.diff", "nl": mode, "F": 0},
+                         umask=0o022, want=applyc.lines_bytes(mode, b2_), fmt=fmt + " terminators", mode=mode))
     # a series of git patches for one file in one stream: every later patch starts from the not yet written result of the
     # one before; terminators (CRLF lines, a last line without newline that no later patch touches) stay what they are
     for _ in range(80 if q else 1200):
@@ -665,6 +689,37 @@ def run_c20(run_, rng, tier, exe):
                 bad.append((i, "-D output duplicates or drops common lines", rep))
     b9, m9 = define_drifted(run_, rng, 1500 if q else 25000)
     bad += b9; mism += m9
+    # whole program: -D with a patch that removes every line of its file (by /dev/null, by an empty new side, git 'deleted file'):
+    # the merged output still has to be written - evaluated with SYM undefined it is the original, defined it is empty
+    dscn = []
+    for _ in range(60 if q else 800):
+        fmt = rng.choice(["unified", "unified", "context", "git"])
+        sec = scen.section(rng, rng.choice(["dd", "ddir/dd"]), kind="delete", fmt=fmt, nonl=False)
+        if b"#" in sec["text"] or not sec["a"]:
+            continue
+        s0 = scen.base_scenario(rng, [sec], opts={"D": "SYM"})
+        s0["A"] = [t for t, nl in sec["a"]]
+        if b"#" in s0["tree"][sec["path"]][2]:
+            continue
+        dscn.append(s0)
+
+    def judge_ddel(s, r):
+        cur = tree_no_meta(r["tree"]).get(s["secs"][0]["path"])
+        if r["exit"] == 2:
+            return "-D with a patch that removes every line: exit status 2"
+        if cur is None:
+            return "-D with a patch that removes every line: the file is gone, the conditional merge was never written"
+        ls_ = cur[2].decode("latin-1").split("\n")
+        if ls_ and ls_[-1] == "":
+            ls_.pop()
+        new = cpp_eval(ls_, True, "SYM"); old = cpp_eval(ls_, False, "SYM")
+        if new is None or old is None:
+            return "-D output has unbalanced conditionals"
+        if new != [] or old != s["A"]:
+            return "-D with a patch that removes every line: SYM defined gives %d lines (0 wanted), undefined gives %s the original" % (len(new), "" if old == s["A"] else "not")
+        return None
+    _, bdd, mdd = l2_family(run_, exe, dscn, judge_ddel, cls=lambda s, r: "-D deleting patch exit %d" % r["exit"])
+    bad += bdd; mism += mdd
     # the Gallina evaluator and the Python one must agree on every output seen (the oracle of this check is the specification
     # of the theorem, not a second opinion)
     gres = run_model([g[1] for g in geval])
